@@ -1,5 +1,5 @@
 From Coq Require Import Extraction ExtrOcamlBasic ZArith.
 From LT Require Import Zbase PowmModel VtmfModel TmcgModel.
 Extraction "model.ml" Z.to_N (* drvcore.ml needs the type n *)
-  index_element key_share common_key mask remask dec_share dec_finalize type_of_message create_open_card open_run
+  index_element key_share common_key mask remask dec_share dec_update dec_finalize type_of_message create_open_card open_run
   mask_value open_card_qr mask_card complete_secret self_bits type_of_card mask_chain matrix_of rows_of.
